@@ -111,6 +111,10 @@ tts_harness!(c16_tts_n4_ts025, 4, 0.25, 1, 7);
 tts_harness!(c16_tts_n4_ts050, 4, 0.5, 2, 7);
 tts_harness!(c16_tts_n4_ts075, 4, 0.75, 3, 7);
 tts_harness!(c16_tts_n4_ts100, 4, 1.0, 4, 7);
+// pairs on which the single-precision product rounds UP to an integer that the double-precision product stays below
+// (10 * 0.7f32 == 7.0f32 but 10.0f64 * 0.7f32 as f64 < 7): the property says the product is evaluated in single precision
+tts_harness!(c16_tts_n10_ts070, 10, 0.7, 7, 13);
+tts_harness!(c16_tts_n20_ts035, 20, 0.35, 7, 23);
 
 // ---------------------------------------------------------------------------------------------------------------
 // cross_val_predict with a spy estimator
